@@ -227,12 +227,13 @@ func c17Copy(c *Ctx, rel string) {
 					if !ok {
 						continue
 					}
-					sub, _ := ana.Find("call<(*math/big.Int).Sub>(self, $a, $b)", bd2["$d"])
-					if sub == nil || !bd2["$d"].Is("obj") {
+					dT := expandAll(c, bd2["$d"]) // the difference may be computed by a helper (sub then conditional add of P)
+					sub, _ := ana.Find("call<(*math/big.Int).Sub>(self, $a, $b)", dT)
+					if sub == nil || !dT.Is("obj") {
 						continue
 					}
 					// only the first mutation decides what the value is a difference of
-					first := bd2["$d"].Arg(1)
+					first := dT.Arg(1)
 					fb, ok := ana.Match("call<(*math/big.Int).Sub>(self, $a, $b)", first)
 					if !ok {
 						continue
